@@ -109,14 +109,14 @@ func LocalsOf(fn *ssa.Function) []BaseLocal {
 // the baseline locals of the function, those of the same type that have disappeared are matched,
 // in declaration order, with the locals of that type that are new. A wrong match cannot make a
 // proof succeed (invariants are checked), it can only fail to repair it.
-func (e *Engine) renamedLocal(fn *ssa.Function, name string) string {
+func (e *Engine) renamedLocal(fn *ssa.Function, name string) []string {
 	key := fn.String()
 	base, ok := e.BaseLocals[key]
 	if !ok && fn.Origin() != nil {
 		base, ok = e.BaseLocals[fn.Origin().String()]
 	}
 	if !ok {
-		return ""
+		return nil
 	}
 	typ := ""
 	baseNames := map[string]bool{}
@@ -127,7 +127,7 @@ func (e *Engine) renamedLocal(fn *ssa.Function, name string) string {
 		}
 	}
 	if typ == "" {
-		return ""
+		return nil
 	}
 	cur := LocalsOf(fn)
 	curNames := map[string]bool{}
@@ -135,27 +135,26 @@ func (e *Engine) renamedLocal(fn *ssa.Function, name string) string {
 		curNames[c.Name] = true
 	}
 	var gone, fresh []string
-	seen := map[string]bool{}
 	for _, b := range base {
-		if b.Type == typ && !curNames[b.Name] && !seen[b.Name] {
-			seen[b.Name] = true
+		if b.Type == typ && !curNames[b.Name] {
 			gone = append(gone, b.Name)
 		}
 	}
-	seen = map[string]bool{}
 	for _, c := range cur {
-		if c.Type == typ && !baseNames[c.Name] && !seen[c.Name] {
-			seen[c.Name] = true
+		if c.Type == typ && !baseNames[c.Name] {
 			fresh = append(fresh, c.Name)
 		}
 	}
 	if len(gone) == len(fresh) {
+		// a name declared several times (shadowing) maps to several new names; the caller
+		// picks among the live ones as it does for a shadowed name
+		var out []string
 		for i, g := range gone {
 			if g == name {
-				return fresh[i]
+				out = append(out, fresh[i])
 			}
 		}
-		return ""
+		return out
 	}
 	// temporaries were introduced or removed as well: match within the class of locals that
 	// are (not) assigned inside a loop
@@ -180,14 +179,15 @@ func (e *Engine) renamedLocal(fn *ssa.Function, name string) string {
 		}
 	}
 	if len(g2) != len(f2) {
-		return ""
+		return nil
 	}
+	var out []string
 	for i, g := range g2 {
 		if g == name {
-			return f2[i]
+			out = append(out, f2[i])
 		}
 	}
-	return ""
+	return out
 }
 
 // overlayInstances is a synthetic file forcing generic instantiations (DESIGN §3.1).
